@@ -182,6 +182,48 @@ def ob_budget(which):
     return eng.explore(harness)
 
 
+SLOW_INPUTS = [
+    "x = 1\nprint(x + 1)\n" + "\n" * 60, "x = 1\n" + "\n" * 40 + "y = 2\n" + "\n" * 45, "\n" * 70, "def f():\n    return 1\n" + "    \n" * 50,
+    "x = 1" + " " * 3000 + "\n", "# c\n" * 100, "x = (" + "(" * 60 + "1" + ")" * 60 + ")\n", "x = " + " + ".join(["1"] * 400) + "\n",
+    "x = [" + ", ".join("[%d]" % i for i in range(300)) + "]\n", "if x:\n" + "    pass\n" * 300, "s = '" + "a" * 5000 + "'\n",
+    "x = 1 \\\n" + "\n" * 30, "print(1) \\\n\n",
+]
+TIME_LIMIT_S = 40
+
+
+def ob_termination(index):
+    """format_code returns within the time limit on inputs built to provoke super-linear behaviour of the text stages
+    (runs of blank lines, long lines, deep nesting, long chains). Concrete witness: there is no symbolic input here."""
+    import signal
+
+    import pyrefact
+
+    src = SLOW_INPUTS[index]
+
+    class _T(BaseException):
+        pass
+
+    def on_alarm(*a):
+        raise _T()
+
+    old = signal.signal(signal.SIGALRM, on_alarm)
+    signal.setitimer(signal.ITIMER_REAL, TIME_LIMIT_S)
+    what = None
+    try:
+        out = pyrefact.format_code(src)
+        if not isinstance(out, str):
+            what = "not a string"
+    except _T:
+        what = "timeout"
+    except Exception as e:  # noqa: BLE001
+        what = "raises:%s" % type(e).__name__
+    finally:
+        signal.setitimer(signal.ITIMER_REAL, 0)
+        signal.signal(signal.SIGALRM, old)
+    return {"status": "refuted" if what else "confirmed", "paths": 1, "checks": 0, "solver_s": 0.0, "claims": 1,
+            "cexs": [{"model": {}, "info": {"what": what}}] if what else []}
+
+
 def ob_invalid():
     import pyrefact
 
@@ -222,6 +264,9 @@ def obligations(tier, seed):
     for which in ["fix/1", "fix/3", "fix/5", "chain/2", "chain/10", "format_code"]:
         obs.append(Obligation("budget/%s" % which, ob_budget, {"which": which}, hard_timeout=400, sample={"loop": which}))
     obs.append(Obligation("invalid-input", ob_invalid, {}, sample={"inputs": INVALID}))
+    for i in range(len(SLOW_INPUTS)):
+        obs.append(Obligation("termination/%d" % i, ob_termination, {"index": i}, hard_timeout=TIME_LIMIT_S + 30,
+                              sample={"input": SLOW_INPUTS[i][:60] + "...", "length": len(SLOW_INPUTS[i])}))
     # pool
     sks = poolfam.pool_skeletons(tier, seed) + poolfam.direct_edit_skeletons()
     frag = [pool.Skeleton("fragment/%d" % i, t, meta={"rule": None}) for i, t in enumerate(FRAGMENTS)]
@@ -348,6 +393,12 @@ def replay(case):
         finally:
             main._multi_run_fixes = saved
         return {"reproduced": calls[0] > 2 * main.MAX_FILE_PASSES, "detail": "format_code ran _multi_run_fixes %d times" % calls[0]}
+    if k == "termination":
+        d = ob_termination(case["params"]["index"])
+        w = (d["cexs"] or [{"info": {}}])[0]["info"].get("what")
+        return {"reproduced": d["status"] == "refuted", "key": "%s|%s" % (case["oid"], w),
+                "detail": "format_code on %r... (%d chars): %s (limit %ds)" % (SLOW_INPUTS[case["params"]["index"]][:50],
+                                                                           len(SLOW_INPUTS[case["params"]["index"]]), w, TIME_LIMIT_S)}
     if k == "invalid-input":
         d = ob_invalid()
         return {"reproduced": d["status"] == "refuted", "detail": str(d["cexs"])[:500]}
